@@ -181,6 +181,11 @@ class LockDomain(Domain):
             return v.b
         if isinstance(v, Obj):
             return True
+        if isinstance(v, Opaque) and v.tag.startswith("field:"):
+            # a guarded collection may be empty or not: both branches, refined in assume() (the free list found empty)
+            if state is not None and "free" in v.tag and state.get("#free_empty") is True:
+                return False
+            return None
         return super().truth(v, state)
 
     def assume_name(self, key, value, branch, state):
